@@ -75,6 +75,13 @@ def oracles_for(obligation):
             for n in names:
                 if n not in out:
                     out.append(n)
+    if obligation.startswith('oracle :: '):
+        # the SQL-date searches (every day number) say nothing about the Oracle-style type of the same name
+        spec = [n for n in out if not n.startswith('date_')]
+        out = spec or out
+    # the cheap, specific searches first
+    slow = ('date_extract', 'date_from_ymd', 'date_from_days', 'date_add_sub_days', 'date_add_months', 'ts_add_months', 'ts_split', 'date_trunc', 'date_round')
+    out.sort(key=lambda n: n in slow)
     return out
 
 
